@@ -81,6 +81,7 @@ type Result struct {
 	Blocked    []GInfo // goroutines created during the run and still alive at the end
 	Unfinished []string
 	Budget     bool   // step budget exceeded
+	WallBudget bool   // ... by its wall-clock part (depends on the load of the machine)
 	Stuck      string // non-empty: process never became quiescent (infrastructure)
 	Hazards    []string
 	TraceHash  string
@@ -860,6 +861,7 @@ func (s *Sim) Run(maxSteps int) *Result {
 			// (the wall-clock part only matters for runs that pile up goroutines and steps
 			// without end; ordinary runs take milliseconds)
 			s.res.Budget = true
+			s.res.WallBudget = s.res.Steps < maxSteps
 			s.mu.Unlock()
 			break
 		}
